@@ -35,7 +35,9 @@ CLAIMED = {
         text="Heap.tla (segments, free lists, objects, roots, collect, grow) is model checked exhaustively on focused small configurations; "
              "TLC-generated action sequences are executed on the real sexp_alloc/sexp_gc/sexp_grow_heap on a micro heap and every step's full projected heap state "
              "is accepted or rejected by TLC against the same actions with Tiling/FreeSorted/RefsValid/NoLeak evaluated at every state; every collection of whole-program "
-             "workloads is validated against the summary spec (tiling sums, anomaly counters of the post-GC walk, append-only segments, bounded growth).",
+             "workloads is validated against the summary spec (tiling sums, anomaly counters of the post-GC walk, append-only segments, bounded growth). "
+             "Preserve.tla specifies the embedding API's root multiset (sexp_preserve_object / sexp_release_object): histories in FIFO, LIFO and random release order, with repeated preservation and "
+             "releases of unpreserved objects, are run through harness/c/preserve.c and TLC accepts a collection only if it reclaimed exactly the objects without an outstanding preservation.",
         design_ref="5/C10",
         note="Trusted: TLC, the JSON trace reader, the projection code of the harness and of hook H2 (itself cross-checked against the model on the micro heap). "
              "Default 64-bit non-Boehm configuration only; fragmentation quality not decided."),
